@@ -123,6 +123,8 @@ def judge_cell(cell, col, cls, enumerated=False, only_segments=None):
     pool = (4, 5, 6, 8, 9, 12, 15, 17, 31, 32, 33, 63, 64, 65, 100, 127, 128, 129, 200, 255, 256, 257)
     extra = pool[(cell >> 7 ^ cell >> 23 ^ cell >> 41 ^ cell >> 58) % len(pool)]
     calls += [((extra, True), _opts(extra, True)), ((extra, False), _opts(extra, False))]
+    # an option value that is equal to 'auto' but is not the interned literal (read from a file, built at run time)
+    calls.append((("auto_runtime", True), {"segments": "".join(("au", "to"))}))
     if only_segments is not None:
         calls = [((k, (k + res) % 2 == 0), _opts(k, (k + res) % 2 == 0)) for k in only_segments]
     for tag, opts in calls:
